@@ -284,7 +284,9 @@ func (n *Name) Substitute(old, new Name) {
 			n.Ident = new.Ident
 			n.ChannelID = new.ChannelID
 		}
-	} else if !n.Initialized() && n.Ident == old.Ident {
+	} else if !n.Initialized() && !old.Initialized() && n.Ident == old.Ident {
+		// Names are compared by identifier only while both are still uninitialized: an initialized
+		// channel must never capture a (bound or self) name that merely shares its identifier
 		n.Ident = new.Ident
 		n.Channel = new.Channel
 		n.ChannelID = new.ChannelID
